@@ -1,8 +1,37 @@
 (* C04 Streaming target selection equals whole-document selection (XML, JSON).
-   Statements only; proofs in Proofs/Stream*.v. *)
+   Statements only; proofs in Proofs/Stream*.v.
+
+   Vocabulary (Model/Stream.v): a target of the property's class is a predicate [pm] on the chain
+   of element names from the root to a node (covers absolute paths, "//" and wildcards at once)
+   plus a predicate [pred] on the node's own subtree (the final-step predicates);
+   [whole_doc_selection pm pred doc] = the nodes of [doc] on the path, outermost only, in document
+   order, kept iff they satisfy [pred], each with its complete subtree.  [xrun]/[jrun] are the
+   readers' Read-to-EOF loops over the decoder's token stream; [rel] says after which deliveries
+   the caller calls Release. *)
 From Coq Require Import List NArith Bool.
 Import ListNotations.
-From OV Require Import Base.Bytes Base.Tree Model.Stream Proofs.Stream.
+From OV Require Import Base.Bytes Base.Tree Model.Stream Proofs.Stream Proofs.StreamXml.
+
+(* For every XML document, every target of the class and every Release pattern: the reader ends
+   with EOF and the delivered snapshots are exactly the whole-document selection (same nodes,
+   same order, complete subtrees, none twice, none skipped).  [has_filter] is the reader's
+   "closing check installed" flag; without it the target has no final predicate.
+   Forced hypothesis [pm [] = false]: the path part must not select the document node itself
+   (targets "." and "/": the XML reader then delivers the top-level ELEMENT, see the report). *)
+Theorem xml_stream_eq_select :
+  forall (pm : list name -> bool) (pred : tree -> bool) (has_filter : bool),
+    (has_filter = false -> forall t, pred t = true) ->
+    pm [] = false ->
+    forall content rel,
+      exists L, xrun pm pred has_filter false x_init rel (xdoc_events content) = (L, FEOF) /\
+                map fst L = whole_doc_selection pm pred (xdoc_tree content).
+Proof. exact xml_stream_eq_select_proof. Qed.
+
+(* "outermost matches of the path part, then the final predicates" is the recursion that stops
+   at the first node on the path. *)
+Theorem whole_doc_selection_is_spec : forall pm pred doc,
+  whole_doc_selection pm pred doc = spec pm pred [] doc.
+Proof. exact whole_doc_selection_is_spec. Qed.
 
 Theorem release_then_prologue : forall st st1,
   release st = Some st1 -> read_prologue st1 = read_prologue st.
